@@ -70,16 +70,27 @@ def insertRows (c : CSt D) (now : Int) (b : String) : List (Ev D) → Except Err
     | .error x => (.error x, { c with txn := true })
     | .ok (s, _) => insertRows (wrote c s now) now b es
 
-/-- `insert_many`: every upsert is a `replace` with its own `conditional_commit(1)`; the id-less
-    events are one `executemany` followed by `conditional_commit(len)` -/
+/-- the UPDATE statements of the upserts of `insert_many`, one elementary write each (no commit
+    decision is taken between them) -/
+def upsertRows (c : CSt D) (now : Int) (b : String) : List (Ev D) → CSt D
+  | [] => c
+  | e :: es => upsertRows (wrote c (Sqlite.replace c.cur b (e.id.getD 0) e) now) now b es
+
+/-- `insert_many` (as repaired, F20): the upserts, then the id-less events as one `executemany`, then ONE
+    `conditional_commit` counting every statement of the call -/
 def insertMany (c : CSt D) (now : Int) (b : String) (es : List (Ev D)) : Except Err (CSt D) × CSt D :=
-  let c1 := (es.filter (fun e => e.id.isSome)).foldl (fun c e => replace c now b (e.id.getD 0) e) c
+  let ups := es.filter (fun e => e.id.isSome)
+  let c1 := upsertRows c now b ups
   let rows := es.filter (fun e => e.id.isNone)
   match insertRows c1 now b rows with
-  | (.error x, c2) => (.error x, c2)
+  | (.error x, _) =>
+    -- the bulk INSERT raises only when the bucket does not exist (NOT NULL bucketrow); the UPDATEs
+    -- before it then matched no row, so nothing was written and nothing is counted: only a
+    -- transaction is open (`AwProofs.CommitL.failed_bulk_literal` relates this to the literal
+    -- statement sequence)
+    (.error x, { c with txn := true })
   | (.ok c2, _) =>
-    -- executemany with no rows executes nothing
-    let c3 := condCommit c2 rows.length now
+    let c3 := condCommit c2 (ups.length + rows.length) now
     (.ok c3, c3)
 
 def createBucket (c : CSt D) (now : Int) (b : String) (m : Meta) : Except Err (CSt D) × CSt D :=
